@@ -1,6 +1,10 @@
 package main
 
 import (
+	"strings"
+	"bytes"
+	"os/exec"
+	"os"
 	"time"
 	"fmt"
 
@@ -97,6 +101,34 @@ func genMonitor(out *Output, rng *Rng) {
 		fr, err := g.Filter(lint.FilterOptions{IncludeSources: lint.SourceList{srcs[rng.Intn(len(srcs))], srcs[rng.Intn(len(srcs))]}})
 		if err == nil {
 			regs = append(regs, fr)
+		}
+	}
+	// "returns normally" also when the calls come from several goroutines of a fresh process: a few cold children lint
+	// certificates under many top-level domains concurrently; a child that dies (a run-time fatal error cannot be recovered)
+	// never returned its result sets
+	{
+		self, _ := os.Executable()
+		trials := 4
+		if tier() == "thorough" {
+			trials = 20
+		}
+		for t := 0; t < trials; t++ {
+			tick()
+			cmd := exec.Command(self, "c10cold", "par")
+			var se bytes.Buffer
+			cmd.Stderr = &se
+			if _, err := cmd.Output(); err != nil {
+				msg := se.String()
+				if i := strings.Index(msg, "fatal error"); i >= 0 {
+					msg = msg[i:]
+				}
+				if len(msg) > 600 {
+					msg = msg[:600]
+				}
+				out.Violate("C01|process-dies-under-concurrent-linting", fmt.Sprintf("a fresh process that lints certificates from many goroutines died (%v): %s", err, msg),
+					map[string]interface{}{"how": "harness c10cold par (lints ~400 parsed certificates, one goroutine each, as the first lint calls of the process)", "trial": t}, "every call returns a result set", "the process is gone")
+				break
+			}
 		}
 	}
 	nObj := 300
